@@ -101,6 +101,39 @@ def run_controls(prop, mod, chk, seed=0):
         finally:
             shutil.rmtree(SCRATCH, ignore_errors=True)
             fcntl.flock(lock, fcntl.LOCK_UN)
+    if True:
+        # negative controls: behaviour-preserving edits (renames, reordered independent stores, added logging, commuted conjuncts,
+        # an extracted helper ..) that this property's rules must not report
+        quiet = []
+        base = None
+        with open(os.path.join(extract.CACHE, "scratch.lock"), "w") as lock2:
+            fcntl.flock(lock2, fcntl.LOCK_EX)
+            try:
+                for p in sorted(glob.glob(os.path.join(report.VERIF, "benign", "*.patch"))):
+                    name = os.path.basename(p)
+                    dest = make_scratch()
+                    ok, out = apply_patch(dest, p)
+                    if not ok:
+                        skipped.append({"control": "benign/" + name, "why": "patch does not apply to the current tree"})
+                        continue
+                    try:
+                        v = violations_in(dest, mod, prop)
+                    except extract.ExtractError as e:
+                        skipped.append({"control": "benign/" + name, "why": "variant does not build"})
+                        continue
+                    finally:
+                        drop_variant_facts(dest)
+                    if base is None:
+                        base = set(violations_in("/repo", mod, prop))
+                    new = sorted(set(v) - base)
+                    if new:
+                        raise report.CheckerError("benign variant %s (%s) is reported by the rules of %s: %s - a false alarm of the checker"
+                                                  % (name, header(p).get("about", ""), prop, new[:4]))
+                    quiet.append({"variant": name, "about": header(p).get("about", "")})
+            finally:
+                shutil.rmtree(SCRATCH, ignore_errors=True)
+                fcntl.flock(lock2, fcntl.LOCK_UN)
+        chk.info["benign_variants_silent"] = quiet
     chk.info["controls_fired"] = fired
     chk.info["controls_skipped"] = skipped
     for f in fired:
